@@ -573,8 +573,10 @@ pub fn explore(
                     f(s, &h, &po);
                 }
                 if let Some(v) = &po.violation {
+                    // capped per property tag: another property's violations never crowd out this check's own
+                    let tag = crate::props::tag_of(v).unwrap_or_default();
                     let mut g = violations.lock().unwrap();
-                    if g.len() < 16 {
+                    if g.iter().filter(|(_, m)| crate::props::tag_of(m).unwrap_or_default() == tag).count() < 16 {
                         g.push((h.clone(), v.clone()));
                     }
                     continue;
